@@ -10,6 +10,7 @@ import (
 	"fmt"
 	"os"
 	"path/filepath"
+	"regexp"
 	"runtime"
 	"sort"
 	"strings"
@@ -122,15 +123,25 @@ func (s *Stats) Probe(name string) { s.Probes[name]++ }
 
 var digestFile *os.File
 
+var scratchNameRe = regexp.MustCompile(`vsim-[0-9]+`)
+
 func (s *Stats) AddResult(r *Result) {
 	s.CLIRuns++
 	if digestFile != nil {
 		h := sha256.New()
-		fmt.Fprintf(h, "%s|%s|%v|%v|%q|%q|", r.Sig, r.Err, r.Hang, r.Panic != "", r.Stdout, r.Stderr)
+		// the scratch directory has a random name; it may appear in messages
+		norm := func(b []byte) []byte { return scratchNameRe.ReplaceAll(b, []byte("vsim-X")) }
+		fmt.Fprintf(h, "%s|%s|%v|%v|%q|%q|", r.Sig, norm([]byte(r.Err)), r.Hang, r.Panic != "", norm(r.Stdout), norm(r.Stderr))
 		for _, e := range r.Events {
 			fmt.Fprintf(h, "%d:%d:%s:%s:%d;", e.Seq, e.TNS, e.Actor, e.Ev, e.N)
 		}
 		fmt.Fprintf(digestFile, "%x %d events, sim %d ns\n", h.Sum(nil)[:12], len(r.Events), r.SimNS)
+		if os.Getenv("VERIF_DIGEST_VERBOSE") != "" {
+			fmt.Fprintf(digestFile, "  sig=%s err=%q hang=%v stdout=%dB stderr=%q\n", r.Sig, r.Err, r.Hang, len(r.Stdout), firstBytes(r.Stderr, 300))
+			for _, e := range r.Events {
+				fmt.Fprintf(digestFile, "  %d t=%d %s %s %d\n", e.Seq, e.TNS, e.Actor, e.Ev, e.N)
+			}
+		}
 	}
 	s.SimNS += r.SimNS
 	if r.Sig != "" {
@@ -237,42 +248,6 @@ func Main(t *testing.T, h Hooks) {
 		writeStats(out, st)
 		os.Exit(3)
 	}
-
-	// real-time livelock monitor: one in-process run that is still under way
-	// after livelockLimit of wall-clock time, without the fake-time watchdog
-	// having fired, has a goroutine that runs without ever blocking
-	go func() {
-		limit := 150 * time.Second
-		if v, err := time.ParseDuration(os.Getenv("VERIF_LIVELOCK_LIMIT")); err == nil && v > 0 {
-			limit = v
-		}
-		var last uint64
-		since := time.Now()
-		for {
-			time.Sleep(time.Second)
-			cur := runSeq.Load()
-			if cur%2 == 0 || cur != last {
-				last, since = cur, time.Now()
-				continue
-			}
-			if time.Since(since) < limit {
-				continue
-			}
-			sc := runScenario.Load()
-			detail := fmt.Sprintf("one in-process run did not finish within %v of real time although fake time never reached the watchdog: a goroutine of git-sizer is running without ever blocking (livelock)", limit)
-			if *flagReplay != "" {
-				fmt.Fprintf(ProcessStdout, "REPLAY-VIOLATION %s/hang\n%s\n", p.ID, detail)
-				os.Exit(1)
-			}
-			cp := *sc
-			cp.Expect = &ExpectInfo{Class: p.ID + "/hang", Detail: detail}
-			f := filepath.Join(out, "violations", "livelock-"+sc.Hash()+".json")
-			cp.Save(f)
-			st.Violations = append(st.Violations, ViolationRecord{Class: p.ID + "/hang", Detail: detail, File: f})
-			writeStats(out, st)
-			os.Exit(3)
-		}
-	}()
 
 	if *flagDigests != "" {
 		digestFile, _ = os.Create(*flagDigests)
